@@ -34,7 +34,14 @@ CFLAGS_race := -O1 -g -fsanitize=thread -mllvm -tsan-distinguish-volatile $(COV)
 CXXFLAGS_race := -O1 -g -DSIM_RACE=1
 LDFLAGS_race := -rdynamic -ldl
 
-VARIANTS := asan plain swcrc race
+# measurement only (tools/coverage.sh): source-based coverage of the library under the simulated workloads
+CC_cov := clang
+CXX_cov := clang++
+CFLAGS_cov := -O0 -g -fprofile-instr-generate -fcoverage-mapping
+CXXFLAGS_cov := -O1 -g
+LDFLAGS_cov := -fprofile-instr-generate
+
+VARIANTS := asan plain swcrc race cov
 
 all: asan plain
 .PHONY: all clean $(VARIANTS)
